@@ -85,13 +85,13 @@ QUICK = ["BD:w1", "BD:w3", "11:w0", "BC:w3", "XX:w1", "BD:wc", "BD:flags", "BD:v
          "CO:a.prio", "CO:a.frutype", "CO:a.mru1", "CO:a.pce_name", "CO:b.proc", "CO:a.loc", "SS:w1"]
 
 LAYOUTS = ["n%d:f%X:p%d:m%d" % (n, f, p, m) for n in (1, 2) for f in range(16) for (p, m) in ((0, 0), (1, 0), (0, 1), (1, 2))]
-LAYOUTS += ["n0:f0:p0:m0", "n1:fD:p1:m3", "n1:fD:p0:m15", "n3:fD:p1:m1", "n1:f8:p1:m0:L80", "n1:f8:p0:m0:L0", "n2:f2:p0:m1:L0"]
-QUICK_LAYOUTS = ["n0:f0:p0:m0", "n1:fD:p1:m3", "n2:fF:p1:m2", "n2:f0:p0:m1", "n1:f8:p1:m0:L80", "n2:f2:p0:m1:L0", "n1:f5:p0:m0"]
+LAYOUTS += ["n0:f0:p0:m0", "n1:fD:p1:m3", "n1:fD:p0:m15", "n2:f8:p0:m8", "n2:f1:p1:m7", "n3:fD:p1:m1", "n1:f8:p1:m0:L80", "n1:f8:p0:m0:L0", "n2:f2:p0:m1:L0"]
+QUICK_LAYOUTS = ["n0:f0:p0:m0", "n1:fD:p1:m3", "n1:fD:p0:m15", "n2:f8:p0:m8", "n2:fF:p1:m2", "n2:f0:p0:m1", "n1:f8:p1:m0:L80", "n2:f2:p0:m1:L0", "n1:f5:p0:m0"]
 
 HARNESSES = [
     {"fn": "h_field", "cases": CASES, "quick_cases": QUICK, "timeout": {"quick": 60, "thorough": 300}},
     {"fn": "h_layout", "cases": LAYOUTS, "quick_cases": QUICK_LAYOUTS, "timeout": {"quick": 60, "thorough": 300}},
-    {"fn": "h_registry", "cases": ["BD", "BD:small6", "BD:small9", "11", "BC"], "quick_cases": ["BD", "11", "BC"], "timeout": {"quick": 60, "thorough": 300}},
+    {"fn": "h_registry", "cases": ["BD", "BD:small6", "BD:small9", "11", "BC", "11:afterBD", "BD:after11"], "quick_cases": ["BD", "11", "BC", "11:afterBD"], "timeout": {"quick": 60, "thorough": 300}},
     {"fn": "h_procedure", "cases": ["O", "B"], "timeout": {"quick": 60, "thorough": 300}},
 ]
 BOUNDS = {"fields": "one field symbolic per run (all values): version, 7 flag bits, word count 1..9, each of the 8 hex words "
@@ -421,7 +421,7 @@ def h_registry() -> bool:
     """
     kind = CASE.split(":")[0]
     small = CASE.split(":")[1] if ":" in CASE else ""
-    c = sym_int("c", 0x30, 0x30 if small else 0x39)   # last character of the reason code: '0'..'9'
+    c = sym_int("c", 0x30, 0x31 if small.startswith("after") else (0x30 if small else 0x39))   # last character of the reason code: '0'..'9'
     # hex(word) has a value-dependent digit count (one fork per count): only the word named by the case
     # ranges over all 32-bit values, the others over the 8-digit values
     w = [sym_int("w%d" % i, 0 if small == "small%d" % i else 0x10000000, 0xFFFFFFFF) for i in (5, 6, 7, 8, 9)]
@@ -434,6 +434,11 @@ def h_registry() -> bool:
     saved = srcmod.registry.pels
     srcmod.registry.pels = FIXTURE_REGISTRY
     try:
+        if small.startswith("after"):
+            # history: an SRC of another type with the very same reason code was decoded just before
+            other = small[5:]
+            oprefix = {"BD": b"BD8D203", "11": b"1100203", "BC": b"BC8A030"}[other]
+            decode(build_src(other, "PS", with_co=False, words=words, ascii=mkbytes(oprefix, [c], b" " * 24)))
         nm, out, used = decode(data)
     except Exception as e:
         return verdict(False, obs={"exception": repr(e)})
